@@ -242,7 +242,7 @@ pub fn run(tier: Tier) -> i32 {
         .par_iter()
         .fold(Census::new, |mut cen, d| {
             if let Ok(Ok(c)) = guard(|| prepare(d, KeyForm::Compressed)) {
-                if c.keys.len() > 6 {
+                if c.keys.len() > 6 || matches!(&c.d, D::Wsh(crate::ast::T::Multi(4, _)) | D::Sh(crate::ast::T::Multi(4, _)) | D::Wsh(crate::ast::T::SortedMulti(4, _))) {
                     // wide multisigs: the all-witness search does not scale; they are covered by C01 / C09 / C13 / C17
                     bump(&mut cen, "wide_descriptors_skipped");
                     return cen;
